@@ -244,6 +244,39 @@ def r19_3(ctx):
             if c is not None and (c in (("param", 2), ("param", 3)) or (c[0] in ("local", "phi", "havoc"))):
                 okb = True
         r.ob("pipeline:helper:backend-code", okb, h.site, "the second evaluation uses the response code, or the fallback code when there is none")
+        # the (final, backend) pair the analyses filter with: a redirect decided at request time is final
+        # *and* is the status the filters see (the proxy never asks the backend); otherwise the backend
+        # status (the example's, else the fallback) is looked at
+        g = F.fn("action::Action::get_final_status_code_with_fallback")
+        r.analysed(g)
+
+        def is_zero(conds, x):
+            for a, v in conds:
+                if a[0] == "bin" and a[1] in ("Eq", "Ne") and {a[2], a[3]} == {x, ("const", 0)}:
+                    return bool(v) if a[1] == "Eq" else not bool(v)
+            return None
+        badp = []
+        rows = 0
+        for p in Sym(g, copies=True).paths():
+            if p.end[0] != "ret":
+                continue
+            rows += 1
+            ret = p.end[1]
+            d = dict(ret[3]) if ret[0] == "agg" else {}
+            at0 = [e[3] for e in p.events if e[0] == "call" and e[1] == "action::Action::get_status_code" and e[2][1] == ("const", 0)]
+            z = is_zero(p.conds, at0[0]) if at0 else None
+            if z is None:
+                badp.append("a return that does not depend on the request-time status")
+            elif not z:
+                if not (d.get("0") == at0[0] and d.get("1") == at0[0]):
+                    badp.append("request-time status applies: expected (it, it), got %s" % show(ret, g))
+            else:
+                rz = is_zero(p.conds, ("param", 2))
+                b = ("param", 3) if rz else ("param", 2)
+                fin = d.get("0", ())
+                if rz is None or d.get("1") != b or not (fin and fin[0] == "call" and fin[1] == "action::Action::get_status_code" and fin[2][1] == b):
+                    badp.append("no request-time status: expected (get_status_code(backend), backend) with backend = response status or fallback, got %s" % show(ret, g))
+        r.ob("pipeline:final-and-backend-status", not badp and rows >= 3, g.site, "request-time status -> (s, s); else (get_status_code(b), b), b = response status, or the fallback when it is 0 (%d returns)" % rows if not badp else "; ".join(sorted(set(badp))[:3]))
     ctx.run_rule("R19.3", "pipeline sequence agreement and request-time-first status", body, floor=14)
 
 
